@@ -342,3 +342,84 @@ func valueReaches(v ssa.Value, ms ssa.Value) bool {
 	}
 	return false
 }
+
+// RunPredefEncoding: the writer replaces a built-in encoding by the id of a
+// predefined one (0 = Standard, 1 = Expert) when a predicate says the
+// encoding "is" that predefined encoding; the reader, seeing the id,
+// reconstructs the vector with a generator function.  The predicate
+// therefore has to be equality with what that same generator produces: it
+// calls the generator the reader calls and compares the encoding with the
+// result position by position.  A one-directional test (every used code is
+// standard) accepts encodings that leave standard glyphs unencoded, and those
+// come back encoded.
+func RunPredefEncoding(w *World, r *Report) {
+	r.Rule("predefenc: each predicate under which (*cff.Font).Write emits a predefined encoding id (isStandardEncoding, isExpertEncoding) calls the generator that cff.Read uses to rebuild that encoding and compares the font's encoding with its result element by element (an inequality at one index makes it return false)")
+	pairs := [][2]string{{"cff.isStandardEncoding", "cff.StandardEncoding"}, {"cff.isExpertEncoding", "cff.expertEncoding"}}
+	rd := w.Func("cff.Read")
+	for _, pr := range pairs {
+		pred, gen := w.Func(pr[0]), w.Func(pr[1])
+		key := r.MkKey("predefenc", pr[0], "comparison with "+pr[1])
+		if pred == nil || gen == nil || rd == nil {
+			r.Fail("predefenc", key, "-", "predicate, generator or cff.Read does not resolve", nil)
+			continue
+		}
+		// the reader rebuilds the encoding with this generator
+		readerUses := false
+		for _, b := range rd.Blocks {
+			for _, in := range b.Instrs {
+				if c, ok := in.(*ssa.Call); ok && c.Call.StaticCallee() == gen {
+					readerUses = true
+				}
+			}
+		}
+		// the predicate: generator call whose elements are compared with the parameter's elements at the same index
+		var genCall *ssa.Call
+		for _, b := range pred.Blocks {
+			for _, in := range b.Instrs {
+				if c, ok := in.(*ssa.Call); ok && c.Call.StaticCallee() == gen {
+					genCall = c
+				}
+			}
+		}
+		elementwise := false
+		if genCall != nil && len(pred.Params) > 0 {
+			for _, b := range pred.Blocks {
+				for _, in := range b.Instrs {
+					cmp, ok := in.(*ssa.BinOp)
+					if !ok || (cmp.Op != token.NEQ && cmp.Op != token.EQL) {
+						continue
+					}
+					idxOf := func(v ssa.Value, base ssa.Value) (ssa.Value, bool) {
+						ld, ok := v.(*ssa.UnOp)
+						if !ok || ld.Op != token.MUL {
+							return nil, false
+						}
+						ia, ok := ld.X.(*ssa.IndexAddr)
+						if !ok || ia.X != base {
+							return nil, false
+						}
+						return ia.Index, true
+					}
+					for _, pair := range [][2]ssa.Value{{cmp.X, cmp.Y}, {cmp.Y, cmp.X}} {
+						i1, ok1 := idxOf(pair[0], pred.Params[0])
+						i2, ok2 := idxOf(pair[1], genCall)
+						if ok1 && ok2 && i1 == i2 {
+							elementwise = true
+						}
+					}
+				}
+			}
+		}
+		switch {
+		case !readerUses:
+			r.Fail("predefenc", key, w.Pos(rd.Pos()), "cff.Read does not rebuild the predefined encoding with "+pr[1]+": predicate and reader no longer refer to the same vector", nil)
+		case genCall == nil:
+			r.Fail("predefenc", key, w.Pos(pred.Pos()), "the predicate does not call "+pr[1]+", the function with which the reader rebuilds the encoding: whatever it tests instead, an encoding it accepts need not be the vector the reader will produce (for instance one that leaves glyphs with standard names unencoded)", nil)
+		case !elementwise:
+			r.Fail("predefenc", key, w.Pos(genCall.Pos()), "the result of "+pr[1]+" is not compared with the font's encoding element by element at the same index", nil)
+		default:
+			r.OK("predefenc", key, w.Pos(genCall.Pos()), "equality with the vector the reader rebuilds")
+		}
+	}
+	r.Floor("predefenc", 2)
+}
